@@ -165,6 +165,16 @@ class PrintExec(ME.MiniExec):
             if op in ('+', '-'):
                 return a + b if op == '+' else a - b
             raise F.AnalysisBroken('operator %s with side effects not modelled' % op)
+        if k == 'UnaryOperator' and e['op'] in ('++', '--'):
+            key = self.lkey(e['c'][0], env)
+            cur = env.get(key)
+            if cur is None:
+                cur = self.ev.eval(e['c'][0], env, frozenset())
+            if not isinstance(cur, int):
+                raise F.AnalysisBroken('`%s` of an unknown value' % F.src(e)[:40])
+            new = cur + (1 if e['op'] == '++' else -1)
+            env[key] = new
+            return cur if e.get('post') else new
         if k == 'ConditionalOperator':
             c = self.val(e['c'][0], env)
             if c is None:
